@@ -257,6 +257,36 @@ TuSelectQueries(out, n, s) == Len(out) = n /\ \A t \in 1..Len(out) :
     /\ out[t][1] >= 1 /\ out[t][1] <= Cardinality({q \in 1..Len(s) : s[q] = out[t][2]})
 
 ---------------------------------------------------------------------------
+(* Long quad structures (hundreds of millions of symbols, positions still   *)
+(* below 2^31): `base` copies of the symbol f, then a short tail T.        *)
+(* Ps = positions of the symbol s in T; plain integer arithmetic.          *)
+
+BigQGet(f, T, rel) ==
+    IF rel < 0 THEN Cl("get.in_lead", {f})
+    ELSE IF rel < Len(T) THEN Cl("get.in", {T[rel + 1]})
+    ELSE Cl("get.out", {NONE})
+BigQRank(s, f, base, T, Ps, rel) ==
+    IF s > 3 THEN Cl("rank.sym_gt_3", {NONE})
+    ELSE IF rel > Len(T) THEN Cl("rank.pos_out", {NONE})
+    ELSE LET inT == IF rel <= 0 THEN 0 ELSE RankP(Ps, rel)
+         IN  IF s = f THEN Cl("rank.gen_lead", {base + (IF rel <= 0 THEN rel ELSE inT)})
+             ELSE Cl("rank.gen", {inT})
+\* k is the absolute (0-based) occurrence index
+BigQSelect(s, f, base, Ps, k) ==
+    IF s > 3 THEN Cl("select.sym_gt_3", {NONE})
+    ELSE IF s = f
+    THEN (IF k < base THEN Cl("select.in_lead", {k})
+          ELSE IF k - base < Len(Ps) THEN Cl("select.gen_lead", {base + SelectP(Ps, k - base)})
+          ELSE Cl("select.missing", {NONE}))
+    ELSE IF k < Len(Ps) THEN Cl("select.gen", {base + SelectP(Ps, k)})
+    ELSE Cl("select.missing", {NONE})
+BigQOccs(s, f, base, Ps) ==
+    IF s > 3 THEN Cl("occs.sym_gt_3", {NONE}) ELSE Cl("occs.gen", {(IF s = f THEN base ELSE 0) + Len(Ps)})
+BigQOccsSmaller(s, f, base, T) ==
+    IF s > 3 THEN Cl("occs_smaller.sym_gt_3", {NONE})
+    ELSE Cl("occs_smaller.gen", {(IF f < s THEN base ELSE 0) + Cardinality({q \in 1..Len(T) : T[q] < s})})
+
+---------------------------------------------------------------------------
 (* Kinds of values and the conversions between them (the type-state graph  *)
 (* of the library): which conversion methods a kind offers and the kind    *)
 (* of the result.  TraceLib's Conv action and the LibConv machine share    *)
